@@ -41,6 +41,7 @@ pub fn track_desc(id: u64) -> impl Strategy<Value = TrackDesc> {
             poison,
             // an observation without attribute and feature is a pure attribute update: not part of the description
             obs: obs.into_iter().filter(|(_, a, f)| a.is_some() || f.is_some()).collect(),
+            reid: None,
         })
 }
 
@@ -72,7 +73,14 @@ fn atom_op() -> impl Strategy<Value = AtomOp> {
 }
 
 pub fn atom_case() -> impl Strategy<Value = AtomCase> {
-    (track_desc(1), track_desc(2), 1usize..4, atom_op()).prop_map(|(dest, src, shards, op)| AtomCase { dest, src, shards, op })
+    (track_desc(1), track_desc(2), 1usize..4, atom_op(), proptest::bool::weighted(0.2)).prop_map(|(dest, mut src, shards, op, reid)| {
+        // an external source may have been given a new id after it was built (the trackers do
+        // that with every new track): its history still names the id it was created with
+        if reid && matches!(op, AtomOp::Merge { .. } | AtomOp::MergeExternal { .. }) {
+            src.reid = Some(40 + src.id);
+        }
+        AtomCase { dest, src, shards, op }
+    })
 }
 
 /// attribute key with the "history length seen by optimise" masked (not pinned for merges)
